@@ -325,7 +325,7 @@ fn pos(rng: &mut Rng) -> Point {
 fn main() {
     main_with("c18", "exploration", |run: &Run| {
         run.set_rule(
-            "Circles: every diameter 0..=D (exact doubled-coordinate band test, symmetry, runs, touching sides, = ellipse(d,d), sector/arc with |sweep| >= 360); ellipses: every axis pair 0..=E (true distance to the ideal curve, band 0.5 px, symmetry, runs, = rounded rectangle with half-side radii); \
+            "Circles: every diameter 0..=D (exact doubled-coordinate band test, symmetry, runs, touching sides, = ellipse(d,d), sector/arc with |sweep| >= 360); ellipses: every axis pair 0..=E and display-scale axis pairs (320x240 ... 640x480) (true distance to the ideal curve, band 0.5 px, symmetry, runs, = rounded rectangle with half-side radii); \
              rounded rectangles: all sizes 0..=12 x equal radii 0..=7 and random independent/oversized radii (confine sums, zero radii = rectangle, corner band test, runs); arcs and sectors: diameters up to 128 on a degree grid of start angles x sweeps -400..=400 plus random fractional angles (subset of circle/ring, membership iff inside the sweep beyond 1.5 px from the radial boundaries). \
              This binary is built twice (default features and fixed_point). Non-trivial = shape of at least 3 px with a curved boundary / non-zero sweep; distinct = distinct shape parameters.",
         );
@@ -334,13 +334,18 @@ fn main() {
         let dmax = run.tier(96u64, 160u64);
         run.generate("circles", dmax + 1, true, 0.15, |ctx, idx, rng| check_circle(ctx, pos(rng), idx as u32));
         // a few large shapes (sizes beyond 255)
-        let nlarge = run.tier(12u64, 200u64);
+        let nlarge = run.tier(16u64, 240u64);
         run.generate("large-circles-ellipses", nlarge, false, 0.2, |ctx, idx, rng| {
             let big = *rng.pick(&[255u32, 256, 257, 300, 320, 511, 513]) + rng.u32r(0, 2);
-            match idx % 3 {
+            match idx % 4 {
                 0 => check_circle(ctx, pos(rng), big),
                 1 => check_ellipse(ctx, pos(rng), big, rng.u32r(1, 90)),
-                _ => check_ellipse(ctx, pos(rng), rng.u32r(1, 90), big),
+                2 => check_ellipse(ctx, pos(rng), rng.u32r(1, 90), big),
+                _ => {
+                    // both axes at display scale (full-screen ellipses of common panels, products beyond 2^16)
+                    let (w, h) = [(320u32, 240u32), (240, 320), (257, 256), (255, 258), (400, 300), (480, 272), (640, 480), (296, 128), (128, 296), (250, 122)][(idx / 4 % 10) as usize];
+                    check_ellipse(ctx, pos(rng), w + rng.u32r(0, 2), h + rng.u32r(0, 2));
+                }
             }
         });
         let emax = run.tier(32u64, 100u64);
